@@ -10,42 +10,53 @@ EXTENDS OccPublish, TLC
 CONSTANTS MaxMsgs,      \* publishes per behaviour
           MaxPerPub,    \* publishes per publisher
           MaxReads,     \* explicit metadata reads per behaviour
-          OccSet, BatchSet, Kinds, Pols,
-          Mut           \* "none" | "after_write" | "newest" | "batch"
+          MaxPauses,    \* PauseStream calls per behaviour
+          OccSet, BatchSet, PathSet, Kinds, Pols,
+          Mut           \* "none" | "after_write" | "newest" | "batch" | "none_paused" | "neg_waives"
 
-VARIABLES last, nReads
-mcvars == <<vars, last, nReads>>
+VARIABLES last, nReads, nPauses
+mcvars == <<vars, last, nReads, nPauses>>
 
 SentBy(p) == Cardinality({id \in Ids : msgs[id].p = p})
 
 MCInit ==
-  /\ cfg \in [occ : OccSet, batch : BatchSet]
+  /\ cfg \in [occ : OccSet, batch : BatchSet, path : PathSet]
   /\ msgs = <<>> /\ net = {} /\ chan = <<>> /\ log = <<>> /\ ackq = {}
-  /\ clk = 1 /\ known = [p \in Pubs |-> 0]
-  /\ last = [a |-> "Open"] /\ nReads = 0
+  /\ clk = 1 /\ known = [p \in Pubs |-> 0] /\ paused = FALSE
+  /\ last = [a |-> "Open"] /\ nReads = 0 /\ nPauses = 0
 
 MCSend(p, kind, pol) ==
   /\ Len(msgs) < MaxMsgs /\ SentBy(p) < MaxPerPub
   /\ kind = "stale" => known[p] > 0          \* otherwise the same as "equal"
   /\ pol = "none" => \A id \in Ids : msgs[id].pol # "none"
-  /\ DoSend(p, kind, pol)
+  \* the unary Publish RPC returns with the answer: one outstanding publish per publisher
+  /\ cfg.path = "sync" => \A id \in Ids : msgs[id].p = p => msgs[id].ackT < Inf
+  \* (d') seeded defect: ack policy NONE is not refused while the partition is paused
+  /\ IF Mut = "none_paused" THEN SendAs(p, kind, pol, cfg.occ /\ pol = "none" /\ ~paused)
+                            ELSE DoSend(p, kind, pol)
   /\ last' = [a |-> "Send", p |-> p, kind |-> kind, pol |-> pol]
-  /\ UNCHANGED nReads
+  /\ UNCHANGED <<nReads, nPauses>>
+
+\* PauseStream between two waves (everybody has his answers)
+MCPause ==
+  /\ nPauses < MaxPauses /\ Len(msgs) < MaxMsgs
+  /\ DoPause
+  /\ last' = [a |-> "Pause"] /\ nPauses' = nPauses + 1 /\ UNCHANGED nReads
 
 MCRead(p) ==
   /\ nReads < MaxReads /\ known[p] # Len(log)
   /\ DoRead(p)
-  /\ last' = [a |-> "Read", p |-> p] /\ nReads' = nReads + 1
+  /\ last' = [a |-> "Read", p |-> p] /\ nReads' = nReads + 1 /\ UNCHANGED nPauses
 
 \* all publishers wait for their answers, then look at the log end
 MCBarrier ==
   /\ Quiescent /\ msgs # <<>> /\ \E p \in Pubs : known[p] # Len(log)
   /\ known' = [p \in Pubs |-> Len(log)]
   /\ last' = [a |-> "Barrier"]
-  /\ UNCHANGED <<cfg, msgs, net, chan, log, ackq, clk, nReads>>
+  /\ UNCHANGED <<cfg, msgs, net, chan, log, ackq, clk, paused, nReads, nPauses>>
 
-MCArrive(id) == DoArrive(id) /\ last' = [a |-> "Arrive", id |-> id] /\ UNCHANGED nReads
-MCAck(id) == DoAckDeliver(id) /\ last' = [a |-> "Ack", id |-> id] /\ UNCHANGED nReads
+MCArrive(id) == DoArrive(id) /\ last' = [a |-> "Arrive", id |-> id] /\ UNCHANGED <<nReads, nPauses>>
+MCAck(id) == DoAckDeliver(id) /\ last' = [a |-> "Ack", id |-> id] /\ UNCHANGED <<nReads, nPauses>>
 
 -----------------------------------------------------------------------------
 (* deliberately broken variants of the loop iteration *)
@@ -61,7 +72,7 @@ MutAfterWrite(n) ==
         /\ msgs' = [msgs EXCEPT ![b[1]].res = IF bad THEN "incorrect_offset" ELSE "ok",
                                 ![b[1]].off = IF bad THEN -1 ELSE base]
         /\ ackq' = ackq \cup {b[1]}
-  /\ UNCHANGED <<cfg, net, clk, known>>
+  /\ UNCHANGED <<cfg, net, clk, known, paused>>
 
 \* (c) compared with the newest offset instead of the next one
 MutNewest(n) ==
@@ -75,7 +86,7 @@ MutNewest(n) ==
            ELSE /\ log' = log \o Stamped(b, base)
                 /\ msgs' = [msgs EXCEPT ![b[1]].res = "ok", ![b[1]].off = base]
         /\ ackq' = ackq \cup {b[1]}
-  /\ UNCHANGED <<cfg, net, clk, known>>
+  /\ UNCHANGED <<cfg, net, clk, known, paused>>
 
 \* (b) batch size not forced to 1 (and no panic): message i of the batch is
 \* checked against base + i - 1, one mismatch refuses the whole batch and only
@@ -95,20 +106,37 @@ MutBatch(n) ==
                               THEN [msgs[id] EXCEPT !.res = "ok", !.off = base + IdxIn(b, id) - 1]
                               ELSE msgs[id]]
                 /\ ackq' = ackq \cup {b[i] : i \in 1..n}
-  /\ UNCHANGED <<cfg, net, clk, known>>
+  /\ UNCHANGED <<cfg, net, clk, known, paused>>
+
+\* (e) every negative expected offset waives the check (not only -1)
+MutNegWaives(n) ==
+  /\ n = 1 /\ n <= Len(chan)
+  /\ LET b == SubSeq(chan, 1, n)
+         base == Len(log)
+         bad == cfg.occ /\ msgs[b[1]].exp >= 0 /\ msgs[b[1]].exp # base
+     IN /\ chan' = Tail(chan)
+        /\ IF bad THEN /\ log' = log
+                       /\ msgs' = [msgs EXCEPT ![b[1]].res = "incorrect_offset"]
+           ELSE /\ log' = log \o Stamped(b, base)
+                /\ msgs' = [msgs EXCEPT ![b[1]].res = "ok", ![b[1]].off = base]
+        /\ ackq' = ackq \cup {b[1]}
+  /\ UNCHANGED <<cfg, net, clk, known, paused>>
 
 MCProcess(n) ==
   /\ CASE Mut = "none" -> DoProcess(n)
        [] Mut = "after_write" -> MutAfterWrite(n)
        [] Mut = "newest" -> MutNewest(n)
        [] Mut = "batch" -> MutBatch(n)
+       [] Mut = "neg_waives" -> MutNegWaives(n)
+       [] OTHER -> DoProcess(n)
   /\ last' = [a |-> "Process", b |-> SubSeq(chan, 1, n)]
-  /\ UNCHANGED nReads
+  /\ UNCHANGED <<nReads, nPauses>>
 
 MCNext ==
   \/ \E p \in Pubs, kind \in Kinds, pol \in Pols : MCSend(p, kind, pol)
   \/ \E p \in Pubs : MCRead(p)
   \/ MCBarrier
+  \/ MCPause
   \/ \E id \in net : MCArrive(id)
   \/ \E n \in 1..SetMax(BatchSet) : MCProcess(n)
   \/ \E id \in ackq : MCAck(id)
@@ -122,5 +150,5 @@ StepsOK == [][StepOK]_mcvars
 \* the log only grows (single node, nothing truncates)
 LogGrows == [][Len(log') >= Len(log) /\ SubSeq(log', 1, Len(log)) = log]_mcvars
 
-MCView == <<cfg, msgs, net, chan, log, ackq, clk, known, nReads>>
+MCView == <<cfg, msgs, net, chan, log, ackq, clk, known, paused, nReads, nPauses>>
 =============================================================================
